@@ -57,7 +57,7 @@ def slices(tier):
     )
     sl["A_iou"] = (
         dict(MaxE="2", MaxG="3" if big else "2", PX="3" if big else "2", PY="1", ELabels=S(q("car")), GLabels=S(q("car")), Frames="{0}",
-             PolicySet=S(q("DEFAULT")), TargetSets=S('<<"car">>'), RadiusSets="{<<>>, <<<<1,5>>>>, <<<<1,2>>>>}", ModeSet=IOU_MODES,
+             PolicySet=S(q("DEFAULT")), TargetSets=S('<<"car">>'), RadiusSets="{<<>>, <<<<1,5>>>>, <<<<1,2>>>>, <<<<0,1>>>>}", ModeSet=IOU_MODES,
              FpvalSet="{FALSE}", Sample="0"),
         ("3d", "2d", "3d_derived"),
     )
@@ -136,7 +136,9 @@ def render(sc, kind):
                       ego=_EGO0, uuid="e%d" % i, vid=i + 1)
         else:
             tl = kind == "2d_tl"
-            o = obj2d((x, y), label=TL_OF[sc["elab"][i]] if tl else sc["elab"][i], score=0.5 + 0.01 * i, cam=sc["efr"][i], uuid="e%d" % i, vid=i + 1, tl=tl)
+            # centre-distance mode: ROIs of different, non-square extents whose CENTRES sit on the lattice (the score is about the centres)
+            off, sz = ((x - 3, y - 1), (6, 2)) if sc["mode"] == "center" else ((x, y), (2, 2))
+            o = obj2d(off, size=sz, label=TL_OF[sc["elab"][i]] if tl else sc["elab"][i], score=0.5 + 0.01 * i, cam=sc["efr"][i], uuid="e%d" % i, vid=i + 1, tl=tl)
         ests.append(o)
     for j in range(sc["ng"]):
         x, y = sc["gpos"][j]
@@ -145,7 +147,8 @@ def render(sc, kind):
                       uuid="g%d" % j, vid=j + 1)
         else:
             tl = kind == "2d_tl"
-            o = obj2d((x, y), label=TL_OF[sc["glab"][j]] if tl else sc["glab"][j], score=1.0, cam=sc["gfr"][j], uuid="g%d" % j, vid=j + 1, tl=tl)
+            off, sz = ((x - 1, y - 4), (2, 8)) if sc["mode"] == "center" else ((x, y), (2, 2))
+            o = obj2d(off, size=sz, label=TL_OF[sc["glab"][j]] if tl else sc["glab"][j], score=1.0, cam=sc["gfr"][j], uuid="g%d" % j, vid=j + 1, tl=tl)
         gts.append(o)
     return ests, gts
 
